@@ -175,13 +175,15 @@ theorem fold_no_cp_offsets (E : List Req) (hE : cpOffsetsB E = []) (t : TState) 
     · rw [execReq_cps_of_noncp t r hr hm]
 
 /-- **The database of the largest stored offset is the database it was written
-    in.** Execute, on a target without earlier checkpoints, any request list with
-    ordered keys (all ≥ some even bound `2·lo`) whose last checkpoint write is `<rid>_offset o`.
-    Then `o` sits in the database `d` the connection was in at that write, and
-    every other database holds a strictly smaller offset. -/
-theorem resume_db_unique (E1 E2 : List Req) (o : Int) (t : TState) (hfresh : t.cps = [])
+    in**, general form: execute, on a target whose stored offsets all have key
+    `≤ b` and, outside the connection's database, key `≤ s` (`Inv t b s`), any
+    request list with ordered keys all `≥ b` whose last checkpoint write is
+    `<rid>_offset o`. Then `o` sits in the database `d` the connection was in at
+    that write, and every other database holds a strictly smaller offset. -/
+theorem resume_db_unique_from (E1 E2 : List Req) (o : Int) (t : TState) (b s : Int)
+    (hI0 : Inv t b s)
     (hsorted : (keysB (E1 ++ Req.cpOffset o :: E2)).Pairwise (· ≤ ·))
-    (lo : Int) (hnn : ∀ k ∈ keysB (E1 ++ Req.cpOffset o :: E2), 2 * lo ≤ k)
+    (hnn : ∀ k ∈ keysB (E1 ++ Req.cpOffset o :: E2), b ≤ k)
     (hlast : cpOffsetsB E2 = []) :
     let d := (E1.foldl execReq t).cur
     let t' := (E1 ++ Req.cpOffset o :: E2).foldl execReq t
@@ -189,14 +191,10 @@ theorem resume_db_unique (E1 E2 : List Req) (o : Int) (t : TState) (hfresh : t.c
     ∀ d', d' ≠ d → ∀ o', (getCp t'.cps d').offset = some o' → o' < o := by
   simp only
   rw [List.foldl_append, List.foldl_cons]
-  have hI0 : Inv t (2 * lo) (2 * lo) := by
-    refine ⟨?_, ?_, Int.le_refl _, lo, rfl⟩
-    · intro d o' h; simp [hfresh, getCp] at h
-    · intro d _ o' h; simp [hfresh, getCp] at h
   rw [keysB_append] at hsorted hnn
   have hs1 : (keysB E1).Pairwise (· ≤ ·) := (List.pairwise_append.mp hsorted).1
   obtain ⟨b1, s1, ⟨hA1, hO1, hs1b1, n1, hn1⟩, _, hub1⟩ :=
-    fold_inv E1 t (2 * lo) (2 * lo) hI0 (fun k hk => hnn k (List.mem_append_left _ hk)) hs1
+    fold_inv E1 t b s hI0 (fun k hk => hnn k (List.mem_append_left _ hk)) hs1
   -- the checkpoint key dominates everything before it
   have hkey : 2 * o + 1 ∈ keysB (Req.cpOffset o :: E2) := by rw [keysB_cons]; simp [keyOfReq]
   have hb1 : b1 ≤ 2 * o + 1 :=
@@ -211,5 +209,18 @@ theorem resume_db_unique (E1 E2 : List Req) (o : Int) (t : TState) (hfresh : t.c
     rw [getCp_setCp_ne _ _ _ _ hd'] at h
     have := hO1 d' hd' o' h
     omega
+
+/-- the same on a target without earlier checkpoints -/
+theorem resume_db_unique (E1 E2 : List Req) (o : Int) (t : TState) (hfresh : t.cps = [])
+    (hsorted : (keysB (E1 ++ Req.cpOffset o :: E2)).Pairwise (· ≤ ·))
+    (lo : Int) (hnn : ∀ k ∈ keysB (E1 ++ Req.cpOffset o :: E2), 2 * lo ≤ k)
+    (hlast : cpOffsetsB E2 = []) :
+    let d := (E1.foldl execReq t).cur
+    let t' := (E1 ++ Req.cpOffset o :: E2).foldl execReq t
+    (getCp t'.cps d).offset = some o ∧
+    ∀ d', d' ≠ d → ∀ o', (getCp t'.cps d').offset = some o' → o' < o :=
+  resume_db_unique_from E1 E2 o t (2 * lo) (2 * lo)
+    ⟨by intro d o' h; simp [hfresh, getCp] at h, by intro d _ o' h; simp [hfresh, getCp] at h,
+      Int.le_refl _, lo, rfl⟩ hsorted hnn hlast
 
 end GunYu.Target
